@@ -1207,10 +1207,6 @@ def classify_uncovered(evs, upto: int, transport: str = 'p') -> str | None:
     place, which is tested but not proved)."""
     pg = PG2((0, 0, 0, 0))
     cls = None
-    if transport == 'c' and sum(1 for (st, _, _) in evs[:upto + 1] if split_cs(st)[1].startswith('L ')) >= 2:
-        # query cache on: RELEASE SAVEPOINT units are cacheable, a repeated one is served from the cache
-        # and never reaches the compiler state
-        cls = 'release-cached'
     mark = None       # number of frames right after the last accepted ROLLBACK TO of this block
     pending = False   # an accepted ROLLBACK TO whose sync_to_savepoint has not happened yet
     for (stmt0, cf, bf) in evs[:upto + 1]:
@@ -1587,7 +1583,6 @@ WITNESSES = {
     'fault-start': [('S', 0, 1), ('Q', 0, 0)],
     'migration-inner-savepoint': [('S', 0, 0), ('D 1', 0, 0), ('M', 0, 0), ('D 2', 0, 0), ('N', 0, 0), ('B 2', 0, 0)],
     'migration-release-outer': [('S', 0, 0), ('D 1', 0, 0), ('M', 0, 0), ('L 1', 0, 0), ('N', 0, 0)],
-    'release-cached': ('c', [('S', 0, 0), ('D 1', 0, 0), ('L 1', 0, 0), ('D 1', 0, 0), ('L 1', 0, 0), ('B 1', 0, 0)]),
     'client-state-after-rollback-to': [('S', 0, 0), ('D 1', 0, 0), ('B 1', 0, 0), ('@7,4 Q', 0, 0), ('Q', 0, 0)],
     'detached-later-savepoint': [('S', 0, 0), ('D 1', 0, 0), ('B 1', 0, 0), ('Q', 0, 0), ('D 2', 0, 0), ('C', 0, 2),
                                  ('B 2', 0, 0)],
@@ -1643,16 +1638,15 @@ def detached_stats(evs):
 
 
 def real_release_unit_cacheable(env) -> dict:
-    """`cacheable` of the units the REAL compiler builds for transaction control (only RELEASE
-    SAVEPOINT is left cacheable: `_compile_ql_transaction` sets `cacheable = False` in every other
-    branch)"""
+    """`cacheable` of the units (and groups) the REAL compiler builds for transaction control: all must be
+    non-cacheable (RELEASE SAVEPOINT was left cacheable until fix 0236887)"""
     st = L1Real((1, 2, 3, 4)).st
     ctx = C.CompileContext(compiler_state=env.cstate, state=st, output_format=enums.OutputFormat.BINARY,
                            expected_cardinality_one=False, protocol_version=defines.CURRENT_PROTOCOL)
     out = {}
-    for s_ in ['S', 'D 1', 'L 1', 'D 1', 'B 1', 'C']:
+    for s_ in ['S', 'D 1', 'L 1', 'D 1', 'B 1', 'C', 'S', 'R']:
         g = C.compile(ctx=ctx, source=FakeSource([ast_of(s_, False)], s_))
-        out[s_.split(' ')[0]] = bool(g.cacheable)
+        out[s_.split(' ')[0]] = bool(g.cacheable) or any(bool(u.cacheable) for u in g)
     return out
 
 
@@ -1722,7 +1716,7 @@ def run(ctx: core.Ctx):
         for c in gen_l2_scripts(rng, ctx.budget(150, 3000)):
             l2_cases.append((c, 'script'))
         # the same through the REAL parser and compilers (front-end bridge)
-        for c in gen_l2_bridge(rng, ctx.budget(8, 1500), ctx.budget(1, 80)):
+        for c in gen_l2_bridge(rng, ctx.budget(5, 1500), ctx.budget(1, 80)):
             l2b_cases.append((c, 'bridge'))
         for (t, pl, evs) in gen_l2_mig(rng, ctx.budget(1, 400), 12, covered=True):
             evs_b, nddl = [], 0
@@ -1742,7 +1736,8 @@ def run(ctx: core.Ctx):
             import re as _re
             # real DDL is slow (0.5 s, several seconds on a loaded machine): the first DDL of a history
             # stays a DDL, further ones become config changes (equally visible in the payload)
-            evs_b, nddl = [], 0
+            # (quick tier: only the seed-c09e history keeps its DDL)
+            evs_b, nddl = [], (1 if ctx.quick() and not name.startswith('seed c09e, silent') else 0)
             for st, cf, bf in c[2]:
                 mm = _re.fullmatch(r'((?:@\S+ )?)U (\d+) \d+', st)
                 if mm:
@@ -1781,6 +1776,16 @@ def run(ctx: core.Ctx):
     env = Env('standin')
     try:
         cacheable_flags = real_release_unit_cacheable(env)
+        kinds = {'S': 'START TRANSACTION', 'D': 'DECLARE SAVEPOINT', 'L': 'RELEASE SAVEPOINT',
+                 'B': 'ROLLBACK TO SAVEPOINT', 'C': 'COMMIT', 'R': 'ROLLBACK'}
+        for k_, flag in cacheable_flags.items():
+            if flag:
+                # a cacheable transaction-control unit is served from dbview's compiled-query cache on a
+                # repeat and never reaches the compiler state (fixed for RELEASE by 0236887)
+                ctx.fail(f'oracle:tx-control-cacheable:{k_}',
+                         f'the real compiler builds a cacheable unit for {kinds[k_]}: a repeated statement '
+                         f'would be served from the query cache without updating the compiler state',
+                         {'statement': kinds[k_], 'flags': cacheable_flags})
         for j, (case, stream) in enumerate(l2_cases):
             line, bad, case = run_l2(env, case)
             l2_cases[j] = (case, stream)
